@@ -8,12 +8,20 @@ from pyvc.engine import ContractMismatch
 
 def run(sidecars, only=None, timeout_ms=10000, verbose=True):
     reg = contracts.Registry()
-    for sc in sidecars:
+    wanted_modules = set()
+    for sc in sorted(glob.glob("/verif/contracts/*.py")):   # callee contracts may live in any sidecar
+        if os.path.basename(sc).startswith("native_"):
+            continue
+        before = set(reg.contracts) | {"lemma." + k for k in reg.lemmas}
         reg.load_sidecar(sc)
+        if os.path.abspath(sc) in {os.path.abspath(x) for x in sidecars}:
+            wanted_modules |= (set(reg.contracts) | {"lemma." + k for k in reg.lemmas}) - before
     reg.link()
     allobs, status = [], {}
     for fid, c in reg.contracts.items():
-        if only and not any(o in fid for o in only):
+        if fid not in wanted_modules:
+            continue
+        if only and not any(fid.endswith(o) or ("." + o + ".") in fid or o in fid.rsplit(".", 1)[-1] for o in only):
             continue
         if c.trusted:
             status[fid] = ("trusted", c.trusted_reason)
@@ -30,6 +38,8 @@ def run(sidecars, only=None, timeout_ms=10000, verbose=True):
         except ContractMismatch as e:
             status[fid] = ("mismatch", str(e))
     for name, lem in reg.lemmas.items():
+        if "lemma." + name not in wanted_modules:
+            continue
         if only and not any(o in name for o in only):
             continue
         mod = extract.import_module("pyxform.utils")
